@@ -1089,8 +1089,8 @@ class FileParser(object):
             Optional(ee + Optional(sign) + digits)
         ))
 
-        # special case for a float written like "3e5"
-        mixed_exp = _ToFloat(Combine(digits + ee + Optional(sign) + digits))
+        # special case for a float written like "3e5" or "-2e-05"
+        mixed_exp = _ToFloat(Combine(Optional(sign) + digits + ee + Optional(sign) + digits))
 
         nan = (_ToInf(oneOf("Inf -Inf inf -inf")) |
                _ToNan(oneOf("NaN nan NaN%  NaNQ NaNS qNaN sNaN 1.#SNAN 1.#QNAN -1.#IND")))
